@@ -356,6 +356,18 @@ func init() {
 			}
 			lintCert(der, "general names", nil)
 		}
+		// (3b) structured subjects: repeated attributes in both orders under every scope profile
+		{
+			nRand := 1200
+			if tier() == "thorough" {
+				nRand = 30000
+			}
+			sc := structuredSubjects(rng, tier() == "thorough", nRand)
+			for _, c := range sc {
+				lintCert(c.DER, strings.SplitN(c.Why, " ", 3)[0]+" subject attribute", map[string]interface{}{"profile": c.Why, "subject": c.Attrs})
+			}
+			out.Stats["structured_subjects"] = len(sc)
+		}
 		// (4) corpus x structure-aware mutation of extension contents
 		corpus := loadCorpus()
 		nMut := 1500
